@@ -83,6 +83,7 @@ type Env struct {
 	// per-run knobs
 	BlockPartSize int
 	BlockSize     int
+	AuthByCA      bool // certificate-authority admission of peers (C20)
 	Timeouts      [7]int // propose, proposeDelta, prevote, prevoteDelta, precommit, precommitDelta, commit
 	Plugins       string
 }
@@ -185,7 +186,7 @@ func (nd *Node) conf(env *Env) *viper.Viper {
 	c.Set("mempool_enable_txs_limits", false)
 	c.Set("mempool_broadcast", false)
 	c.Set("pex_reactor", false)
-	c.Set("auth_by_ca", false)
+	c.Set("auth_by_ca", env.AuthByCA)
 	c.Set("non_validator_node_auth", false)
 	c.Set("fast_sync", false)
 	c.Set("moniker", fmt.Sprintf("n%d", nd.ID))
